@@ -397,6 +397,8 @@ func c20DT(h *H, loc, has, cloc, off, ns, u0, stride, n int64) {
 	})
 }
 
+var c20DT64Runs int
+
 var c20Pow10 = [...]int64{1, 10, 100, 1000, 10000, 100000, 1000000, 10000000, 100000000, 1000000000}
 
 // c20Ticks = floor((unix*1e9+nsec) / 10^(9-p)) computed with big integers; ok = fits int64
@@ -411,6 +413,16 @@ func c20DT64(h *H, p, loc, has, cloc, off, ns, u0, stride, n int64) {
 	c20Emit(h, c20Line("dt64", p, loc, has, cloc, off, ns, u0, stride, n), func(o *c20Out) int {
 		time.Local = c20Zone(loc)
 		col := (&proto.ColDateTime64{Location: c20Cloc(has, cloc)}).WithPrecision(proto.Precision(p))
+		if c20DT64Runs++; c20DT64Runs%2 == 0 && has == 0 && p >= 0 && p <= 9 {
+			// the same column object with a history: it was a DateTime64 of another precision, holds a row from then,
+			// and was re-inferred to this one (what sendInput and Results do to a column with the server's type)
+			col = new(proto.ColDateTime64).WithPrecision(proto.Precision((p + 3) % 10))
+			col.Append(time.Unix(12345, 678000000))
+			if err := col.Infer(proto.ColumnType(fmt.Sprintf("DateTime64(%d)", p))); err != nil {
+				panic(err)
+			}
+			h.Stats["dt64.reinferred"]++
+		}
 		want := loc
 		if has != 0 {
 			want = cloc
